@@ -126,6 +126,13 @@ func (e *Env) eval(x Expr) (SVal, types.Type, error) {
 		if err != nil {
 			return nil, nil, err
 		}
+		// a decided condition selects its branch without evaluating the other one
+		if c.S == "true" {
+			return e.eval(n.A)
+		}
+		if c.S == "false" {
+			return e.eval(n.B)
+		}
 		a, ta, err := e.eval(n.A)
 		if err != nil {
 			return nil, nil, err
@@ -322,6 +329,9 @@ func (e *Env) evalBinary(n *EBinary) (SVal, types.Type, error) {
 		if err != nil {
 			return nil, nil, err
 		}
+		if (a.S == "false" && (n.Op == "&&" || n.Op == "==>")) || (a.S == "true" && n.Op == "||") {
+			return Scalar{BoolLit(n.Op != "&&")}, tBool, nil
+		}
 		b, err := e.evalBool(n.Y)
 		if err != nil {
 			return nil, nil, err
@@ -394,6 +404,12 @@ func (e *Env) evalBinary(n *EBinary) (SVal, types.Type, error) {
 // valEq compares two symbolic values structurally; nil compares with pointers,
 // slices (arr == 0) and interfaces (typ == 0).
 func valEq(a, b SVal) (Term, error) {
+	if l, ok := a.(LocV); ok {
+		a = l.load()
+	}
+	if l, ok := b.(LocV); ok {
+		b = l.load()
+	}
 	isNil := func(v SVal) bool {
 		s, ok := v.(Scalar)
 		return ok && s.T.S == "0" && s.T.Sort == SInt
@@ -488,7 +504,18 @@ func (e *Env) evalSel(n *ESel) (SVal, types.Type, error) {
 			return val, g.Type, err
 		}
 		return nil, nil, fmt.Errorf("no ghost field %s on interface %s", n.Name, owner)
+	case LocV:
+		return e.selRef(v.Ref, v.T, n.Name)
 	case Scalar:
+		return e.selRef(v.T, xt, n.Name)
+	}
+	return nil, nil, fmt.Errorf("selector .%s on %T", n.Name, x)
+}
+
+func (e *Env) selRef(ref Term, xt types.Type, name string) (SVal, types.Type, error) {
+	n := &ESel{Name: name}
+	v := Scalar{ref}
+	{
 		owner, s, _, ok := structInfo(xt)
 		if !ok {
 			return nil, nil, fmt.Errorf("selector .%s on non-struct type %s", n.Name, xt)
@@ -497,8 +524,8 @@ func (e *Env) evalSel(n *ESel) (SVal, types.Type, error) {
 			f := s.Field(i)
 			if f.Name() == n.Name {
 				if isStructByValue(f.Type()) {
-					// lvalue of an embedded struct: represented by its embedded reference
-					return Scalar{e.st.embRef(v.T, owner, f.Name())}, f.Type(), nil
+					// an embedded struct: a located value (reference + type)
+					return LocV{e.st.embRef(v.T, owner, f.Name()), f.Type(), e.st}, f.Type(), nil
 				}
 				val, err := e.st.loadField(v.T, owner, f.Name(), f.Type())
 				return val, f.Type(), err
@@ -510,7 +537,6 @@ func (e *Env) evalSel(n *ESel) (SVal, types.Type, error) {
 		}
 		return nil, nil, fmt.Errorf("no field or ghost field %s on %s", n.Name, owner)
 	}
-	return nil, nil, fmt.Errorf("selector .%s on %T", n.Name, x)
 }
 
 func (e *Env) evalArgs(args []Expr) ([]SVal, []types.Type, error) {
@@ -692,6 +718,49 @@ func (e *Env) evalCall(n *ECall) (SVal, types.Type, error) {
 			return Scalar{i.Typ}, tInt, nil
 		}
 		return nil, nil, fmt.Errorf("dyntype of non-interface")
+	case "ncalls":
+		if s, ok := n.Args[0].(*EStr); ok {
+			return Scalar{IntLit(int64(e.st.callCnt[s.V]))}, tInt, nil
+		}
+		return nil, nil, fmt.Errorf("ncalls needs a string literal")
+	case "callarg", "callres":
+		s, ok := n.Args[0].(*EStr)
+		k, ok2 := n.Args[1].(*EInt)
+		if !ok || !ok2 {
+			return nil, nil, fmt.Errorf("%s(\"callee\", k[, i])", id.Name)
+		}
+		var kk, ii int
+		fmt.Sscanf(k.V, "%d", &kk)
+		key := fmt.Sprintf("%s#%d", s.V, kk)
+		rec, have := e.st.callLog[key]
+		if !have {
+			// the call did not happen on this path: an unconstrained value can satisfy nothing useful
+			return nil, nil, fmt.Errorf("%s: call %s did not happen on this path (guard with ncalls)", id.Name, key)
+		}
+		if id.Name == "callres" {
+			if rec.res == nil {
+				return nil, nil, fmt.Errorf("callres: %s has no result", key)
+			}
+			return rec.res, rec.resT, nil
+		}
+		if i, ok := n.Args[2].(*EInt); ok {
+			fmt.Sscanf(i.V, "%d", &ii)
+		}
+		if ii >= len(rec.args) {
+			return nil, nil, fmt.Errorf("callarg: %s has %d arguments", key, len(rec.args))
+		}
+		return rec.args[ii], rec.argT[ii], nil
+	case "unboxstr":
+		v, _, err := e.eval(n.Args[0])
+		if err != nil {
+			return nil, nil, err
+		}
+		i, ok := v.(IfaceV)
+		if !ok {
+			return nil, nil, fmt.Errorf("unboxstr of non-interface")
+		}
+		_, un := e.fe.boxFuncs(SStr)
+		return Scalar{App(SStr, un, i.Ref)}, tString, nil
 	case "typecode":
 		// typecode("*pkg.T") : code of a dynamic type
 		if s, ok := n.Args[0].(*EStr); ok {
@@ -729,6 +798,8 @@ func (e *Env) evalCall(n *ECall) (SVal, types.Type, error) {
 
 func refOf(v SVal) Term {
 	switch x := v.(type) {
+	case LocV:
+		return x.Ref
 	case Scalar:
 		return x.T
 	case SliceV:
